@@ -18,6 +18,7 @@ def run():
     res.add_tlc(f"Validation: Containment on every AHB <= {n} nodes with INVALID at every subset of nodes (groups, segments, free text, pool entries)", t)
     V.replay_dump("C16", dump, res, stride=(80 if thorough else 12))
     dump.unlink()
+    V.large_metamorphic("C16", res, 600 if thorough else 60)
     res.coverage["exhaustive"] = False
     res.coverage["rule"] = ("one case = an AHB tree with at least one invalid expression (on a group, segment, free-text element or value-pool entry): the real "
                             "validation must not abort, must report the node optional with a hint, and every other node exactly as for the AHB in "
